@@ -19,12 +19,14 @@ type SyncState struct {
 	counter int // WaitGroup
 	accessesInSection int
 	sections int
+	key      *wgKey
 }
 
 func (e *Exec) syncOf(c *Cell) *SyncState {
 	st := e.syncObjs[c]
 	if st == nil {
 		st = &SyncState{readers: map[int]int{}}
+		st.key = &wgKey{st}
 		e.syncObjs[c] = st
 	}
 	return st
@@ -102,9 +104,13 @@ func stubRUnlock(t *Thread, fn *ssa.Function, args []Value, pos token.Pos) Value
 }
 
 func stubWGAdd(t *Thread, fn *ssa.Function, args []Value, pos token.Pos) Value {
-	c, st := t.syncRecv(args, pos)
+	_, st := t.syncRecv(args, pos)
 	d := t.concInt(args[1].(*Term), "wg.add", pos)
-	t.visible(&SyncOp{kind: "wg.add", obj: c, pos: t.posOf(pos), enabled: func() bool { return true }})
+	acc := "w"
+	if d > 0 {
+		acc = "add"
+	}
+	t.visible(&SyncOp{kind: "wg.add", obj: st.key, acc: acc, pos: t.posOf(pos), enabled: func() bool { return true }})
 	st.counter += d
 	if st.counter < 0 {
 		t.goPanicf(pos, "sync: negative WaitGroup counter", nil)
@@ -114,8 +120,8 @@ func stubWGAdd(t *Thread, fn *ssa.Function, args []Value, pos token.Pos) Value {
 }
 
 func stubWGDone(t *Thread, fn *ssa.Function, args []Value, pos token.Pos) Value {
-	c, st := t.syncRecv(args, pos)
-	t.visible(&SyncOp{kind: "wg.done", obj: c, pos: t.posOf(pos), enabled: func() bool { return true }})
+	_, st := t.syncRecv(args, pos)
+	t.visible(&SyncOp{kind: "wg.done", obj: st.key, acc: "add", pos: t.posOf(pos), enabled: func() bool { return true }})
 	st.counter--
 	if st.counter < 0 {
 		t.goPanicf(pos, "sync: negative WaitGroup counter", nil)
@@ -125,11 +131,8 @@ func stubWGDone(t *Thread, fn *ssa.Function, args []Value, pos token.Pos) Value 
 }
 
 func stubWGWait(t *Thread, fn *ssa.Function, args []Value, pos token.Pos) Value {
-	c, st := t.syncRecv(args, pos)
-	t.visible(&SyncOp{kind: "wg.wait", obj: c, pos: t.posOf(pos), enabled: func() bool { return st.counter == 0 }})
-	if st.counter != 0 {
-		t.blockForever("wg.wait", c, pos, func() bool { return st.counter == 0 })
-	}
+	_, st := t.syncRecv(args, pos)
+	t.visible(&SyncOp{kind: "wg.wait", obj: st.key, pos: t.posOf(pos), enabled: func() bool { return st.counter == 0 }})
 	t.acquire(&st.hb)
 	return nil
 }
@@ -190,7 +193,7 @@ func (t *Thread) chanSend(cv, x Value, pos token.Pos) {
 		t.e.unsupported("send on unbuffered channel at " + t.posOf(pos))
 	}
 	en := func() bool { return c.closed || len(c.buf) < c.cap }
-	t.visible(&SyncOp{kind: "send", obj: c, pos: t.posOf(pos), enabled: en})
+	t.visible(&SyncOp{kind: "send", obj: c, acc: "enq", pos: t.posOf(pos), enabled: en})
 	if !en() {
 		t.blockForever("send", c, pos, en)
 	}
@@ -226,7 +229,11 @@ func (t *Thread) chanRecv(cv Value, commaOk bool, et types.Type, pos token.Pos) 
 	if c == nil {
 		t.blockForever("recv-nil", new(int), pos, func() bool { return false })
 	}
-	t.visible(&SyncOp{kind: "recv", obj: c, pos: t.posOf(pos), enabled: c.recvReady})
+	racc := "deq"
+	if c.cap == 0 {
+		racc = "r" // a channel that is never sent to (only closed): receiving just reads its state
+	}
+	t.visible(&SyncOp{kind: "recv", obj: c, acc: racc, pos: t.posOf(pos), enabled: c.recvReady})
 	if !c.recvReady() {
 		t.blockForever("recv", c, pos, c.recvReady)
 	}
@@ -288,21 +295,28 @@ func (t *Thread) selectOp(fr *frame, in *ssa.Select) Value {
 	}
 	// a select is one visible operation on the set of its channels; use the first channel as its object
 	// unless the channels differ, in which case it is treated as dependent on everything (obj=nil).
-	var obj interface{}
-	if len(states) > 0 {
-		obj = states[0].c
-		for _, s := range states[1:] {
-			if interface{}(s.c) != obj {
-				obj = nil
-				break
+	var objs []interface{}
+	var accs []string
+	for _, s := range states {
+		if s.c != nil {
+			objs = append(objs, s.c)
+			switch {
+			case s.send:
+				accs = append(accs, "enq")
+			case s.c.cap == 0:
+				// receiving from a channel that is only ever closed (never sent to) only reads it
+				accs = append(accs, "r")
+			default:
+				accs = append(accs, "deq")
 			}
 		}
 	}
-	en := func() bool { return !in.Blocking || len(ready()) > 0 }
-	t.visible(&SyncOp{kind: "select", obj: obj, pos: t.posOf(in.Pos()), enabled: en})
-	if !en() {
-		t.blockForever("select", obj, in.Pos(), en)
+	if objs == nil {
+		objs = []interface{}{new(int)}
+		accs = []string{"r"}
 	}
+	en := func() bool { return !in.Blocking || len(ready()) > 0 }
+	t.visible(&SyncOp{kind: "select", objs: objs, accs: accs, pos: t.posOf(in.Pos()), enabled: en})
 	r := ready()
 	res := make(Tuple, 2)
 	nrecv := 0
